@@ -59,13 +59,29 @@ ASSUMPTIONS = [
     'ObjectRenderer.update is an opaque callable returning a str',
     'translator tie, top level: render_rows (C16_source_render_rows), render_csv (C16_source_render_csv: the file is reached '
     'only through csv.writer, whose content is the text written so far; csv.writer = Render.csv_record; calling render_rows = '
-    'interpreting its translation; _get_renderer builds a renderer that has seen nothing) and the first six statements of '
-    'render_text up to the column widths (C16_source_render_text_widths_partial; style selection, header line, row loop and '
-    'rules are not tied by translation) are translated by TopTranslator (rules T1-T7 of harness/vf/src_render.py: zip(*e) as '
+    'interpreting its translation; _get_renderer builds a renderer that has seen nothing) and the WHOLE of render_text '
+    '(C16_source_render_text: the text written is unlines (Render.text_lines ..) = Render.render_text, for all options, '
+    'descriptions and rows; its first six statements also separately, C16_source_render_text_widths_partial) are translated by '
+    'TopTranslator (rules T1-T9 of harness/vf/src_render.py: zip(*e) as '
     'transposition, yield from, loops that mutate the items of a local list in place rebuilt as a new list - exact when the items '
-    'are not aliased elsewhere, which holds for the freshly built cells / renderers lists); a column renderer is modelled by its '
+    'are not aliased elsewhere, which holds for the freshly built cells / renderers lists; T9: an int-valued enum member such as '
+    'Align.LEFT is its value, read from the live class); a column renderer is modelled by its '
     'datatype, its RenderContext and the values update() has seen, format/prepare being Render.st_format/st_width of col_prepare '
-    'over them (Model/PrimsRender.v, section Top)',
+    'over them (Model/PrimsRender.v, section Top); trusted for render_text in addition: str.join / str.center (CPython rounding) / '
+    'ljust / rjust are Render.v\'s own functions, rjust with a one-character fill (rjust_fill), template.format(x) for a template with '
+    'exactly one `{}` field and no other brace (fmt1; anything else is Stuck), zip of three sequences, file.write(s) appends s to the '
+    'file-as-its-content value, renderer.align is 0 / 1 = Align.LEFT / RIGHT by datatype (IntRenderer only is RIGHT)',
+    'translator tie, AmountRenderer / PositionRenderer / DecimalRenderer.__init__ (C16_source_amount_*, C16_source_position_*, '
+    'C16_source_decimal_init): every method is translated (__init__ without its first statement super().__init__(ctx), prepare '
+    'without its last `return super().prepare()`: both checked structurally, the theorems run ColumnRenderer.__init__ / .prepare '
+    'around them); rules A1 self.func(args) = primitive "apply" on the formatter value, A2 self.<owned>.prepare() changes the owned '
+    'renderer (written back), f-string parts `{x}` (x a str) and constants; trusted (Model/PrimsRender.v prims_amt): beancount\'s '
+    'DisplayContext is abstract as in Render.v - DisplayContext() collects the (number, currency) pairs update() is called with, '
+    '.build(Align.DOT, Precision.MAXIMUM) applied to (number, currency) is numfmt of those pairs, .ccontexts iterates over '
+    '"__default__" then the distinct currencies, Decimal() is 0, self.quantize is an opaque callable = quant; no commodity is named '
+    '"__default__"; an owned AmountRenderer is the tuple of its fields and calling its methods is interpreting AmountRenderer\'s '
+    'translated methods (Model/PrimsRenderPos.v); AmountRenderer(ctx) inside PositionRenderer.__init__ is an opaque callable assumed '
+    'to return what C16_source_amount_init proves.  NOT tied by translation: InventoryRenderer, SetRenderer, EnumRenderer, CostRenderer',
 ]
 
 
